@@ -144,6 +144,13 @@ def handle (j : Json) : Except String Json := do
       | "not_like", [e, t, esc] => pure (jsonOfPyM (PonyVerif.Gen.sqlNotLike e t esc))
       | "replace", [x, y, z] => pure (jsonOfPyM (PonyVerif.Gen.sqlReplaceCall x y z))
       | _, _ => throw "gen_build: fn/args"
+  | "make_params" =>
+      -- occ: [[key, content], ...] -> content of the Param object make_param returns at each occurrence
+      let occ ← (← argArr j "occ").mapM (fun x => do
+        match x with
+        | .arr #[k, c] => pure ((← fromJson? k : Nat), (← fromJson? c : Nat))
+        | _ => throw "make_params: pairs")
+      pure (toJson (makeParams [] occ))
   | "like" => pure (.bool (likeMatch (← argOptChar j "esc") (← argChars j "pat") (← argChars j "s")))
   | "sql_replace" => pure (jstr (sqlReplace (← argChars j "old") (← argChars j "new") (← argChars j "s")))
   | "like_ast" =>
